@@ -91,6 +91,7 @@ func checkC17(P *Prog, r *Result) {
 	// a builder that derives a schema acts on the schema it returns, never on its receiver: the field map it writes
 	// is one made in that call (C16's rule)
 	shareRule(P, r, checkC16, "C16/operands-read-only", nil, "C17/derivation-leaves-receiver", 2)
+	shareRule(P, r, checkC16, "C16/no-element-overwrite", nil, "C17/tests-not-replaced-in-place", 1)
 	// ---- field-effects ----
 	for _, k := range R.Kinds {
 		kn := k.Obj().Name()
